@@ -280,6 +280,12 @@ def open_findings(pid):
 
 
 # --------------------------------------------------------------------------- evidence
+def evidence_path(pid):
+    """where this run's evidence file is (evidence/ for runs against /repo itself, out/evidence-scratch/ otherwise)"""
+    evdir = "evidence" if os.path.abspath(REPO) == "/repo" and not os.environ.get("VERIF_MAX_VIOL") else os.path.join("out", "evidence-scratch")
+    return os.path.join(VERIF, evdir, pid + ".json")
+
+
 def write_evidence(pid, tier, level, coverage, wall, violations=0, assumptions=None):
     ev = {"property_id": pid, "tier": tier, "seed": seed(), "level": level, "coverage": coverage,
           "assumptions": assumptions or [], "wall_s": round(wall, 2), "violations": violations}
